@@ -224,6 +224,9 @@ func GenConfig(prop, tier string, seed uint64) Config {
 		c.NSeries = r.Range(4, 12)
 		if r.Chance(0.25) {
 			c.NSeries = r.Range(30, 70) // many values of one label (postings offset table sampling in blocks)
+			if r.Chance(0.5) {
+				c.NSeries = []int{33, 65}[r.Intn(2)] // one more than a multiple of the table's sampling rate
+			}
 		}
 	case "C18":
 		c.RichLabels = true
